@@ -7,6 +7,7 @@ import (
 	"io"
 	gofs "io/fs"
 	"os"
+	"syscall"
 	"path/filepath"
 	"strings"
 	"sync"
@@ -25,6 +26,9 @@ type synthFS struct {
 	// WalkErrAt >= 0 makes the walk fail before reporting entry k.
 	WalkErrAt int
 	WalkErr   error
+	// InfoErrAt >= 0: entry k is listed (the callback's error argument is
+	// nil) but its lazy Info() fails with EIO (not a vanished entry).
+	InfoErrAt int
 	// ReadErr maps a path to the number of bytes after which Read fails.
 	ReadErr map[string]int
 	// SizeOff is added to the announced size of a path (a source whose
@@ -56,8 +60,16 @@ type synthFS struct {
 
 var errInjected = errors.New("injected fault")
 
+// infoFailEntry is a listed entry whose lazy stat fails (EIO, ESTALE, EACCES
+// on an attribute: anything but "it vanished").
+type infoFailEntry struct{ gofs.DirEntry }
+
+func (e *infoFailEntry) Info() (gofs.FileInfo, error) {
+	return nil, &os.PathError{Op: "lstat", Path: e.Name(), Err: syscall.EIO}
+}
+
 func newSynthFS(t *tree.Tree) *synthFS {
-	return &synthFS{t: t, WalkErrAt: -1, opened: map[string]int{}}
+	return &synthFS{t: t, WalkErrAt: -1, InfoErrAt: -1, opened: map[string]int{}}
 }
 
 // newSynthFSReaders is newSynthFS with conforming but unusual readers chosen
@@ -121,7 +133,11 @@ func (s *synthFS) Walk(ctx context.Context, target string, fn gofs.WalkDirFunc) 
 		if s.SymSizeZero && e.Type == tree.Symlink {
 			st.Size = 0
 		}
-		err := fn(e.Path, &fsutil.DirEntryInfo{Stat: st}, nil)
+		var de gofs.DirEntry = &fsutil.DirEntryInfo{Stat: st}
+		if s.InfoErrAt >= 0 && n-1 == s.InfoErrAt {
+			de = &infoFailEntry{DirEntry: de}
+		}
+		err := fn(e.Path, de, nil)
 		if err != nil {
 			if err == filepath.SkipDir {
 				if e.Type == tree.Dir {
